@@ -128,6 +128,51 @@ func (w *World) comparedStringField(fn *ssa.Function, nt *types.Named, strIdx []
 	for f := range w.pkgReach([]*ssa.Function{fn}, nil) {
 		for _, c := range closuresOf(f) {
 			eachInstr(c, false, func(_ *ssa.Function, in ssa.Instruction) {
+				// a table lookup keyed by the field: the keys of a package-level map
+				// that nothing writes after initialisation are the strings "compared with"
+				if lk, ok := in.(*ssa.Lookup); ok {
+					ld, ok := lk.Index.(*ssa.UnOp)
+					if !ok || ld.Op != token.MUL {
+						return
+					}
+					fa, ok := ld.X.(*ssa.FieldAddr)
+					if !ok {
+						return
+					}
+					if n, ok := derefNamed(fa.X.Type()); !ok || n != nt {
+						return
+					}
+					ml, ok := lk.X.(*ssa.UnOp)
+					if !ok || ml.Op != token.MUL {
+						return
+					}
+					gl, ok := ml.X.(*ssa.Global)
+					if !ok || !w.readOnlyGlobal(gl) {
+						return
+					}
+					ist := w.initState()
+					gobj, ok := ist.globals[gl]
+					if !ok {
+						return
+					}
+					mv := ist.obj(gobj).Fields[0]
+					if mv.Kind != avPtr {
+						return
+					}
+					mo := ist.obj(mv.Obj)
+					if !mo.IsMap || mo.Opaque {
+						return
+					}
+					for _, k := range mo.Keys {
+						if ks, ok := k.Str(); ok {
+							if count[fa.Field] == nil {
+								count[fa.Field] = map[string]bool{}
+							}
+							count[fa.Field][ks] = true
+						}
+					}
+					return
+				}
 				bo, ok := in.(*ssa.BinOp)
 				if !ok || bo.Op != token.EQL && bo.Op != token.NEQ {
 					return
